@@ -6,7 +6,43 @@ import (
 	"github.com/urfave/cli/v2"
 
 	rt "github.com/taskctl/taskctl/internal/verifrt"
+	"github.com/taskctl/taskctl/pkg/runner"
+	"github.com/taskctl/taskctl/pkg/scheduler"
+	"github.com/taskctl/taskctl/pkg/task"
 )
+
+// deep = 1: runTask / runPipeline themselves are executed; the recording stand-ins sit one level
+// lower (TaskRunner.Run, Scheduler.Schedule) and the --summary flag and the configuration's
+// `summary:` setting are symbolic.
+var c07Summary bool
+
+func c07TaskRun(r *runner.TaskRunner, t *task.Task) error        { return vRunTask(t, r) }
+func c07Schedule(s *scheduler.Scheduler, g *scheduler.ExecutionGraph) error {
+	return vRunPipeline(g, nil, false)
+}
+func c07Bool(c *cli.Context, name string) bool {
+	if name == "summary" {
+		return c07Summary
+	}
+	return false
+}
+func c07PrintSummary(g *scheduler.ExecutionGraph) {}
+func c07Finish(r *runner.TaskRunner)               {}
+
+func c07Deep(deep int) {
+	if deep != 1 {
+		return
+	}
+	rt.Redirect("github.com/taskctl/taskctl/cmd/taskctl.runTask", nil)
+	rt.Redirect("github.com/taskctl/taskctl/cmd/taskctl.runPipeline", nil)
+	rt.Redirect("(*github.com/taskctl/taskctl/pkg/runner.TaskRunner).Run", c07TaskRun)
+	rt.Redirect("(*github.com/taskctl/taskctl/pkg/runner.TaskRunner).Finish", c07Finish)
+	rt.Redirect("(*github.com/taskctl/taskctl/pkg/scheduler.Scheduler).Schedule", c07Schedule)
+	rt.Redirect("github.com/taskctl/taskctl/cmd/taskctl.printSummary", c07PrintSummary)
+	rt.Redirect("(*github.com/urfave/cli/v2.Context).Bool", c07Bool)
+	c07Summary = rt.Bool("flag.summary")
+	cfg.Summary = rt.Bool("config.summary")
+}
 
 var c07Words = []string{"t1", "t2", "p1", "zz", "--"}
 
@@ -63,9 +99,10 @@ func c07Argv(n int) {
 }
 
 // VerifC07Root: `taskctl <targets...> [-- args]`.
-func VerifC07Root(n int) {
+func VerifC07Root(n, deep int) {
 	vInstallCLI()
 	vConfig()
+	c07Deep(deep)
 	c07Argv(n)
 	rt.Assume(n > 0)
 	err := rootAction(&cli.Context{})
@@ -73,9 +110,10 @@ func VerifC07Root(n int) {
 }
 
 // VerifC07Run: `taskctl run <targets...>`.
-func VerifC07Run(n int) {
+func VerifC07Run(n, deep int) {
 	vInstallCLI()
 	vConfig()
+	c07Deep(deep)
 	c07Argv(n)
 	cmd := newRunCommand()
 	c := &cli.Context{}
@@ -89,9 +127,10 @@ func VerifC07Run(n int) {
 }
 
 // VerifC07RunTask: `taskctl run task <tasks...>`.
-func VerifC07RunTask(n int) {
+func VerifC07RunTask(n, deep int) {
 	vInstallCLI()
 	vConfig()
+	c07Deep(deep)
 	c07Argv(n)
 	cmd := newRunCommand()
 	c := &cli.Context{}
